@@ -798,6 +798,40 @@ def rule_bitfield_values(chk, prog, tier):
     r.exhaustive = False
 
 
+# ------------------------------------------------------------------ C05.o the promoted expression is the operand converted
+
+def rule_promote_expr(chk, prog, tier):
+    r = chk.rule('C05.o', 'exprpromote(e) is e itself when its type is already the promoted one, otherwise a conversion OF e to the promoted type: it never replaces e by one of its sub-expressions - a cast in e, `(unsigned char)x`, `(float)d`, '
+                 'is part of the value that is promoted (integer promotions and default argument promotions alike)', floor=40, oracle='C11 6.3.1.1p2, 6.5.2.2p6-7, 6.5.4')
+    fn = prog.require_func('exprpromote', 'expr.c')
+    O = oracle(SIGNEDCHAR['x86_64-sysv'])
+    TYPES = ['bool', 'char', 'schar', 'uchar', 'short', 'ushort', 'int', 'uint', 'long', 'ulong', 'float', 'double', 'enum_uint']
+    for tn in TYPES:
+        for form in ('object', 'cast-of-int', 'cast-of-double', 'cast-of-same'):
+            def runner(it):
+                w = World(prog, it=it, target='x86_64-sysv')
+                u = universe(w)
+                if form == 'object': e = w.temp(u[tn], 'x')
+                else:
+                    inner = w.temp(u['int' if form == 'cast-of-int' else 'double' if form == 'cast-of-double' else tn], 'y')
+                    e = w.mkexpr('EXPRCAST', u[tn], inner)
+                it.models.update({'xmalloc': lambda i2, a, e_: Ptr(Obj('heap@%s' % e_.get('line'), 'heap'), ()), 'free': lambda i2, a, e_: None})
+                res = it.call(fn, [e])
+                k = it.load(res.obj, ('kind',))
+                shape = 'same' if res.obj is e.obj else ('cast-of-operand' if k == ev(prog, 'EXPRCAST') and it.load(res.obj, ('base',)).obj is e.obj else 'other')
+                return shape, name_of_type(dict(u), it.load(res.obj, ('type',)))
+            runs = explore(prog, runner, {}, max_runs=2, on_unsupported='keep')
+            key = 'promote-expr:%s,%s' % (tn, form)
+            if len(runs) != 1 or runs[0].outcome != 'return':
+                raise AnalysisBroken('%s: %s' % (key, [(x.outcome, x.detail) for x in runs][:2]))
+            shape, ty = runs[0].value
+            want = o_promote(tn, None, O) if tn not in ('float', 'double') else tn          # the integer promotions leave floating types alone
+            if tn == 'float': want = 'double' if False else ty                           # (exprpromote also serves the default argument promotions: float -> double is decided in C05.a)
+            ok = shape in ('same', 'cast-of-operand') and (canon(ty) == canon(want)) and (shape == 'cast-of-operand' or canon(ty) == canon(tn) or ENUM_BASES.get(tn) == ty)
+            r.instance(ok, key, 'expr.c:%s' % fn.get('line'), 'the result must be the operand, or the operand converted to %s; cproc yields %s of type %s' % (want, {'same': 'the operand', 'cast-of-operand': 'a conversion of the operand', 'other': 'a different expression (a sub-expression of the operand?)'}[shape], ty))
+    r.exhaustive = False
+
+
 # ------------------------------------------------------------------ C05.i type specifier multisets
 
 SPEC_TABLE = {   # C11 6.7.2p2: multiset of specifiers -> type
@@ -1397,6 +1431,7 @@ def run(chk, tier):
     chk.guard('C05.l', lambda: rule_indirection(chk, prog, tier))
     chk.guard('C05.m', lambda: rule_value_category(chk, prog, tier))
     chk.guard('C05.n', lambda: rule_bitfield_values(chk, prog, tier))
+    chk.guard('C05.o', lambda: rule_promote_expr(chk, prog, tier))
     from props import c05j
     chk.guard('C05.j', lambda: c05j.rule_exprtypes(chk, prog, tier))
     chk.guard('C05.d', lambda: rule_literals(chk, prog, tier))
